@@ -88,9 +88,11 @@ enum Work {
     Udp,
     /// V idles with nested spawned tasks holding drop guards
     Idle,
+    /// V writes files and drives an io_uring ring
+    FsRing,
 }
 
-async fn victim(s: S, work: Work) -> turmoil::Result {
+async fn victim(s: S, work: Work, spawn_kind: usize) -> turmoil::Result {
     let inc = s.borrow().v_starts[0];
     let _g0 = Guard::new(&s);
     // background side effects, in a tokio::spawn task and a spawn_local task, nested
@@ -111,6 +113,7 @@ async fn victim(s: S, work: Work) -> turmoil::Result {
     });
     match work {
         Work::Idle => std::future::pending().await,
+        Work::FsRing => fs_ring_loop(s.clone(), inc).await,
         Work::Udp => {
             let a = match UdpSocket::bind(("0.0.0.0", 9)).await {
                 Ok(a) => a,
@@ -145,39 +148,131 @@ async fn victim(s: S, work: Work) -> turmoil::Result {
             if work == Work::TcpSlowAccept {
                 tokio::time::sleep(Duration::from_millis(6)).await;
             }
+            let mut conns = 0u32;
             loop {
-                let (mut st, _) = l.accept().await?;
-                let s3 = s.clone();
-                tokio::task::spawn_local(async move {
-                    let _g = Guard::new(&s3);
-                    if work == Work::TcpNotReading {
-                        std::future::pending::<()>().await;
-                    }
-                    if work == Work::TcpVictimWrites {
-                        let mut i = 0u8;
-                        loop {
-                            i = i.wrapping_add(1);
-                            if st.write_all(&[i]).await.is_err() {
-                                break;
-                            }
-                        }
-                        std::future::pending::<()>().await;
-                    }
-                    let mut b = [0u8; 4];
-                    loop {
-                        match st.read(&mut b).await {
-                            Ok(0) | Err(_) => break,
-                            Ok(n) => {
-                                for x in &b[..n] {
-                                    s3.borrow_mut().v_rx.push((inc, *x));
-                                }
-                            }
-                        }
-                    }
-                    std::future::pending::<()>().await;
-                });
+                let (st, _) = l.accept().await?;
+                let fut = handle_conn(st, s.clone(), work, inc);
+                conns += 1;
+                // connection handlers alternate between LocalSet tasks and runtime tasks
+                // when asked to: the two are torn down by different code paths on crash
+                if spawn_kind == 1 || (spawn_kind == 2 && conns % 2 == 0) {
+                    tokio::spawn(ForceSend(fut));
+                } else {
+                    tokio::task::spawn_local(fut);
+                }
             }
         }
+    }
+}
+
+struct ForceSend<F>(F);
+// SAFETY: every runtime of the simulation lives on the one thread that drives it
+unsafe impl<F> Send for ForceSend<F> {}
+impl<F: std::future::Future> std::future::Future for ForceSend<F> {
+    type Output = F::Output;
+    fn poll(self: std::pin::Pin<&mut Self>, cx: &mut std::task::Context<'_>) -> std::task::Poll<F::Output> {
+        unsafe { self.map_unchecked_mut(|s| &mut s.0) }.poll(cx)
+    }
+}
+
+async fn handle_conn(mut st: TcpStream, s3: S, work: Work, inc: u32) {
+    let _g = Guard::new(&s3);
+    if work == Work::TcpNotReading {
+        std::future::pending::<()>().await;
+    }
+    if work == Work::TcpVictimWrites {
+        let mut i = 0u8;
+        loop {
+            i = i.wrapping_add(1);
+            if st.write_all(&[i]).await.is_err() {
+                break;
+            }
+        }
+        std::future::pending::<()>().await;
+    }
+    let mut b = [0u8; 4];
+    loop {
+        match st.read(&mut b).await {
+            Ok(0) | Err(_) => break,
+            Ok(n) => {
+                for x in &b[..n] {
+                    s3.borrow_mut().v_rx.push((inc, *x));
+                }
+            }
+        }
+    }
+    std::future::pending::<()>().await;
+}
+
+struct RingFd(std::os::fd::RawFd);
+impl std::os::fd::AsRawFd for RingFd {
+    fn as_raw_fd(&self) -> std::os::fd::RawFd {
+        self.0
+    }
+}
+
+/// the victim does filesystem and io_uring work when the fault hits; a later
+/// incarnation must start with working (fresh) rings and a readable file tree
+async fn fs_ring_loop(s: S, inc: u32) -> turmoil::Result {
+    use std::os::fd::AsRawFd;
+    use turmoil::fs::shim::std::fs;
+    use turmoil::io_uring::{opcode, types, AsyncFd, IoUring};
+    let _g = Guard::new(&s);
+    if let Err(e) = fs::create_dir_all("/w") {
+        s.borrow_mut().v_errors.push(format!("incarnation {inc}: create_dir_all failed {}", errk(&e)));
+    }
+    let mut k = 0u8;
+    loop {
+        k = k.wrapping_add(1);
+        let _ = fs::write(format!("/w/f{}", k % 3), [k; 4]);
+        if k % 2 == 0 {
+            let _ = fs::OpenOptions::new().write(true).open(format!("/w/f{}", k % 3)).and_then(|f| f.sync_all());
+        }
+        let file = match fs::OpenOptions::new().read(true).write(true).create(true).open("/w/ring") {
+            Ok(f) => f,
+            Err(e) => {
+                s.borrow_mut().v_errors.push(format!("incarnation {inc}: open failed {}", errk(&e)));
+                return std::future::pending().await;
+            }
+        };
+        let mut ring = match IoUring::new(4) {
+            Ok(r) => r,
+            Err(e) => {
+                s.borrow_mut().v_errors.push(format!("incarnation {inc}: IoUring::new failed {}", errk(&e)));
+                return std::future::pending().await;
+            }
+        };
+        let buf = [k; 4];
+        let e1 = opcode::Write::new(types::Fd(file.as_raw_fd()), buf.as_ptr(), 4).offset(0).build().user_data(1);
+        let e2 = opcode::Fsync::new(types::Fd(file.as_raw_fd())).build().user_data(2);
+        unsafe {
+            let _ = ring.submission().push(&e1);
+            let _ = ring.submission().push(&e2);
+        }
+        let _ = ring.submit();
+        let afd = AsyncFd::new(RingFd(ring.as_raw_fd()));
+        let mut got = 0;
+        while got < 2 {
+            let c = {
+                let mut cq = ring.completion();
+                cq.sync();
+                cq.next()
+            };
+            match c {
+                Some(_) => got += 1,
+                None => match &afd {
+                    Ok(a) => {
+                        if tokio::time::timeout(Duration::from_millis(10), a.readable()).await.is_err() {
+                            s.borrow_mut().v_errors.push(format!("incarnation {inc}: io_uring completions missing 10 ms after submit"));
+                            break;
+                        }
+                    }
+                    Err(_) => break,
+                },
+            }
+        }
+        s.borrow_mut().v_effects[0] += 1;
+        tokio::time::sleep(Duration::from_millis(1)).await;
     }
 }
 
@@ -342,7 +437,7 @@ struct Run {
     obs: Vec<String>,
 }
 
-fn run_once(work: Work, steps: usize, crash_at: Option<usize>, bounce_after: Option<usize>, second_crash_after: Option<usize>, bounce_only_at: Option<usize>, sel: usize) -> Run {
+fn run_once(work: Work, steps: usize, crash_at: Option<usize>, bounce_after: Option<usize>, second_crash_after: Option<usize>, bounce_only_at: Option<usize>, sel: usize, spawn_kind: usize) -> Run {
     let mut b = builder(1);
     b.min_message_latency(Duration::from_millis(1)).max_message_latency(Duration::from_millis(1));
     b.tcp_capacity(if matches!(work, Work::TcpNotReading | Work::TcpVictimWrites) { 2 } else { 4 });
@@ -351,7 +446,7 @@ fn run_once(work: Work, steps: usize, crash_at: Option<usize>, bounce_after: Opt
     let sv = st.clone();
     sim.host("v", move || {
         sv.borrow_mut().v_starts[0] += 1;
-        victim(sv.clone(), work)
+        victim(sv.clone(), work, spawn_kind)
     });
     let sb = st.clone();
     sim.host("vb", move || {
@@ -363,7 +458,7 @@ fn run_once(work: Work, steps: usize, crash_at: Option<usize>, bounce_after: Opt
             let s1 = st.clone();
             sim.host("p1", move || udp_peer(s1.clone()));
         }
-        Work::Idle => {}
+        Work::Idle | Work::FsRing => {}
         _ => {
             let s1 = st.clone();
             sim.host("p1", move || tcp_peer(s1.clone(), "p1", 0, 0x10, work == Work::TcpVictimWrites));
@@ -505,12 +600,14 @@ fn run_once(work: Work, steps: usize, crash_at: Option<usize>, bounce_after: Opt
 }
 
 pub fn scenario(ch: &mut Chooser, thorough: bool) -> Exec {
-    let works: &[Work] = &[Work::TcpReading, Work::TcpNotReading, Work::TcpSlowAccept, Work::TcpVictimWrites, Work::Udp, Work::Idle];
+    let works: &[Work] = &[Work::TcpReading, Work::TcpNotReading, Work::TcpSlowAccept, Work::TcpVictimWrites, Work::Udp, Work::Idle, Work::FsRing];
     let work = *ch.of("workload", works);
     let steps = if thorough { 20 } else { 12 };
     let mode = ch.choose("fault", 3); // 0 crash (+bounce), 1 bounce without crash, 2 crash-bounce-crash
     let at = ch.choose("fault_before_step", steps);
     let sel = ch.choose("victim_selection(name|regex-one|regex-two-hosts)", 3);
+    let is_tcp = matches!(work, Work::TcpReading | Work::TcpNotReading | Work::TcpSlowAccept | Work::TcpVictimWrites);
+    let spawn_kind = if is_tcp { ch.choose("connection_handler(spawn_local|tokio::spawn|alternating)", 3) } else { 0 };
     let (crash_at, bounce_after, second, bounce_only) = match mode {
         0 => {
             let opts: &[Option<usize>] = if thorough { &[None, Some(0), Some(1), Some(2), Some(3), Some(6)] } else { &[None, Some(0), Some(1), Some(3)] };
@@ -521,7 +618,7 @@ pub fn scenario(ch: &mut Chooser, thorough: bool) -> Exec {
             (Some(at), Some(*ch.of("bounce_after_steps", &[1usize, 3])), Some(*ch.of("second_crash_after_steps", &[1usize, 4])), None)
         }
     };
-    let run = run_once(work, steps, crash_at, bounce_after, second, bounce_only, sel);
+    let run = run_once(work, steps, crash_at, bounce_after, second, bounce_only, sel, spawn_kind);
     let mut violation = run.violation;
     let mut obs = run.obs;
     let mut feats: Vec<&'static str> = vec![];
@@ -633,7 +730,7 @@ pub fn scenario(ch: &mut Chooser, thorough: bool) -> Exec {
     drop(g);
     if violation.is_none() {
         // (f) uninvolved hosts: identical to the crash-free twin
-        let twin = run_once(work, steps, None, None, None, None, 0);
+        let twin = run_once(work, steps, None, None, None, None, 0, spawn_kind);
         let tl = twin.st.borrow().bystander.clone();
         if sel != 2 && twin.st.borrow().v_effects[1] != run.st.borrow().v_effects[1] {
             violation = Some(Violation::new(
@@ -658,7 +755,7 @@ pub fn scenario(ch: &mut Chooser, thorough: bool) -> Exec {
     obs.push(format!("work={work:?} ops={:?}", run.st.borrow().ops.iter().map(|o| format!("{}:{}@{}={}", o.peer, o.op, o.started, o.result.as_deref().unwrap_or("pending"))).collect::<Vec<_>>()));
     if let Some(v) = violation.as_mut() {
         v.sig = format!("{}|{:?}", v.clause, work);
-        v.scenario = format!("c04 tier={} work={work:?} crash_at={crash_at:?} bounce_after={bounce_after:?} second={second:?} bounce_only={bounce_only:?} selection={sel}", if thorough { "thorough" } else { "quick" });
+        v.scenario = format!("c04 tier={} work={work:?} crash_at={crash_at:?} bounce_after={bounce_after:?} second={second:?} bounce_only={bounce_only:?} selection={sel} handler={spawn_kind}", if thorough { "thorough" } else { "quick" });
         v.actions = obs.clone();
     }
     Exec { outcome: Digest::of64(&obs), violation, features: feats }
